@@ -314,6 +314,9 @@ def c18_tasks(tier):
     for (thr, n) in ((2, 3000), (8, 1500), (32, 400)):
         w("threads", "plain", "--mode", "mixed", "--threads", thr, "--from", thr, "--count", n if q else n * 30)
     w("threads", "tsan", "--mode", "mixed", "--threads", 8, "--from", 99, "--count", 300 if q else 6000)
+    # the FIPS_MODE build has code (and static storage) of its own in the wrappers
+    w("threads", "fips", "--mode", "mixed", "--threads", 8, "--from", 55, "--count", 1500 if q else 45000)
+    w("threads", "fips-tsan", "--mode", "mixed", "--threads", 8, "--from", 77, "--count", 300 if q else 6000)
     for vc in ("host", "avx2", "sse"):
         for part in range(4):
             w("threads", "plain", "--mode", "storm", "--threads", 8 if vc == "host" else 4, "--vcpu", vc, "--nparts", 4, "--part", part, "--count", 1000 if q else 20000)
